@@ -2,7 +2,7 @@
    Bit patterns are N: float32 as 32 bits, codes as 8/16 bits.  4294967296 = 2^32, 2147483648 = 2^31 (sign bit),
    2139095040 = 0x7F800000 (+Inf, the largest non-NaN magnitude). *)
 From HV Require Import Base.Prelude Model.LowFloat Model.LowFloatTie.
-From HV Require Import Proofs.LowFloatBase Proofs.LowFloatBF16 Proofs.LowFloatFP8.
+From HV Require Import Proofs.LowFloat.
 
 (* ---- 1. run lifting: agreement at the end points of a run inside one sign/NaN segment is agreement on the run *)
 Theorem C20_run_lifting_e4m3 : forall s e c x,
@@ -44,6 +44,34 @@ Print Assumptions C20_fp8_mono.
 Theorem C20_bf16_mono : forall a b, a <= b -> b <= 2139095040 -> bf16_enc a <= bf16_enc b.
 Proof. exact bf16_mono. Qed.
 Print Assumptions C20_bf16_mono.
+
+(* ---- 3. FP8: the result is the nearest representable value, ties to the even code; a value at or beyond the
+        midpoint between the largest finite value and the next grid point gives the infinity code 0x7F.
+        (fp8_rne_ok = rne_spec on exact values scaled by 2^149, see Model/LowFloat.v) *)
+Theorem C20_fp8_rne_e4m3 : forall mag, mag <= 2139095040 -> fp8_rne_ok E4M3 mag (fp8_enc_mag E4M3 mag) = true.
+Proof. exact fp8_rne_E4M3. Qed.
+Print Assumptions C20_fp8_rne_e4m3.
+
+Theorem C20_fp8_rne_e5m2 : forall mag, mag <= 2139095040 -> fp8_rne_ok E5M2 mag (fp8_enc_mag E5M2 mag) = true.
+Proof. exact fp8_rne_E5M2. Qed.
+Print Assumptions C20_fp8_rne_e5m2.
+
+(* ---- 4. bfloat16: same specification on the grid of float32 values with 16 low zero bits, infinity 0x7F80 *)
+Theorem C20_bf16_rne : forall mag, mag <= 2139095040 -> bf16_rne_ok mag (bf16_enc mag) = true.
+Proof. exact bf16_rne. Qed.
+Print Assumptions C20_bf16_rne.
+
+(* 3./4. for the full encoders: a non-NaN input gives its sign bit plus the correctly rounded magnitude *)
+Theorem C20_fp8_enc_correct : forall F, (F = E4M3 \/ F = E5M2) ->
+  forall x, x < 4294967296 -> f32_is_nan x = false ->
+  exists c, fp8_enc F x = f32_sign x * 128 + c /\ fp8_rne_ok F (f32_mag x) c = true.
+Proof. exact fp8_enc_correct. Qed.
+Print Assumptions C20_fp8_enc_correct.
+
+Theorem C20_bf16_enc_correct : forall x, x < 4294967296 -> f32_is_nan x = false ->
+  exists c, bf16_enc x = f32_sign x * 32768 + c /\ bf16_rne_ok (f32_mag x) c = true.
+Proof. exact bf16_enc_correct. Qed.
+Print Assumptions C20_bf16_enc_correct.
 
 (* ---- 5. sign symmetry *)
 Theorem C20_fp8_sign : forall F x, x < 2147483648 -> f32_is_nan x = false ->
